@@ -63,12 +63,54 @@ class _LoopsToAny(ast.NodeTransformer):
         return new
 
 
+def _has_private_call(e: ast.AST) -> bool:
+    for n in ast.walk(e):
+        if isinstance(n, ast.Call):
+            nm = n.func.attr if isinstance(n.func, ast.Attribute) else (n.func.id if isinstance(n.func, ast.Name) else "")
+            if _is_private(nm):
+                return True
+    return False
+
+
+class _IfExpToIf(ast.NodeTransformer):
+    """`x = A if c else B` / `return A if c else B` with a private helper call in a branch -> an if statement, so that the helper
+    can be analysed in place on its own branch"""
+
+    def visit_FunctionDef(self, n):
+        return n
+
+    visit_AsyncFunctionDef = visit_Lambda = visit_FunctionDef
+
+    def _split(self, st, value, make):
+        if isinstance(value, ast.IfExp) and (_has_private_call(value.body) or _has_private_call(value.orelse)):
+            new = ast.If(test=value.test, body=[make(value.body)], orelse=[make(value.orelse)])
+            ast.copy_location(new, st)
+            ast.fix_missing_locations(new)
+            return self.visit(new)
+        return st
+
+    def visit_Assign(self, st):
+        return self._split(st, st.value, lambda v: ast.copy_location(ast.Assign(targets=copy.deepcopy(st.targets), value=v, lineno=st.lineno), st))
+
+    def visit_AnnAssign(self, st):
+        if st.value is None:
+            return st
+        return self._split(st, st.value, lambda v: ast.copy_location(ast.AnnAssign(target=copy.deepcopy(st.target), annotation=st.annotation, value=v, simple=st.simple), st))
+
+    def visit_Return(self, st):
+        if st.value is None:
+            return st
+        return self._split(st, st.value, lambda v: ast.copy_location(ast.Return(value=v), st))
+
+
 def normalise_body(body: List[ast.stmt]) -> List[ast.stmt]:
     out = []
-    t = _LoopsToAny()
+    t, u = _LoopsToAny(), _IfExpToIf()
     for st in body:
         r = t.visit(st)
-        out.extend(r if isinstance(r, list) else [r])
+        for x in (r if isinstance(r, list) else [r]):
+            y = u.visit(x)
+            out.extend(y if isinstance(y, list) else [y])
     return out
 
 
